@@ -759,11 +759,15 @@ func (tx *Tx) PrefixScan(bucket string, prefix []byte, offsetNum int, limitNum i
 	}
 
 	if idx, ok := tx.db.BPTreeIdx[bucket]; ok {
-		records, voff, err := idx.PrefixScan(prefix, offsetNum, limitNum)
+		// page over the live keys: fetch every record with the prefix, then skip and limit after
+		// deleted and expired ones have been dropped
+		records, voff, err := idx.PrefixScan(prefix, 0, ScanNoLimit)
 		if err != nil {
 			off = voff
 			return nil, off, ErrPrefixScan
 		}
+
+		records, voff = pageLiveRecords(records, offsetNum, limitNum)
 
 		es, err = tx.getHintIdxDataItemsWrapper(records, limitNum, es, PrefixScan)
 		if err != nil {
@@ -795,11 +799,13 @@ func (tx *Tx) PrefixSearchScan(bucket string, prefix []byte, reg string, offsetN
 	}
 
 	if idx, ok := tx.db.BPTreeIdx[bucket]; ok {
-		records, voff, err := idx.PrefixSearchScan(prefix, reg, offsetNum, limitNum)
+		records, voff, err := idx.PrefixSearchScan(prefix, reg, 0, ScanNoLimit)
 		if err != nil {
 			off = voff
 			return nil, off, ErrPrefixSearchScan
 		}
+
+		records, voff = pageLiveRecords(records, offsetNum, limitNum)
 
 		es, err = tx.getHintIdxDataItemsWrapper(records, limitNum, es, PrefixSearchScan)
 		if err != nil {
@@ -816,6 +822,34 @@ func (tx *Tx) PrefixSearchScan(bucket string, prefix []byte, reg string, offsetN
 	}
 
 	return
+}
+
+// pageLiveRecords drops the deleted and expired records, then skips offsetNum records and keeps
+// at most limitNum of them (all of them when limitNum is not positive). It returns the page and
+// the number of records skipped.
+func pageLiveRecords(records Records, offsetNum int, limitNum int) (Records, int) {
+	live := Records{}
+	for _, r := range records {
+		if r.H.meta.Flag == DataDeleteFlag || r.IsExpired() {
+			continue
+		}
+		live = append(live, r)
+	}
+
+	off := offsetNum
+	if off < 0 {
+		off = 0
+	}
+	if off > len(live) {
+		off = len(live)
+	}
+	live = live[off:]
+
+	if limitNum > 0 && len(live) > limitNum {
+		live = live[:limitNum]
+	}
+
+	return live, off
 }
 
 // Delete removes a key from the bucket at given bucket and key.
